@@ -402,6 +402,13 @@ def _real_refused_commit(a: dict):
 REGISTRY["C19.refused_commit_is_reported"].real_replay = _real_refused_commit
 
 
+# ------------------------------------------------------------------ statements that are ONE engine call cannot be torn by another session (shared with C18)
+import obligations.C18  # noqa: E402,F401
+from vf.registry import alias  # noqa: E402
+
+alias("C19.one_call_statements_stay_one_call", "C18.single_call_statements_are_all_or_nothing", "K3 serialises engine calls, so a statement that changes state through exactly one call has no window in which another session's statement can slip in; the 20 statement kinds that are one call today must stay one call (a second, later call - e.g. bookkeeping keyed by name after a DROP - can hit what another session created in between)")
+
+
 # ------------------------------------------------------------------ independence of what happened before (shared harness)
 import obligations.shared_independence as _indep  # noqa: E402
 
